@@ -37,6 +37,18 @@ ALLMODES = '"sel", "dropHi", "dropLeader", "addLo", "all", "foreign"'
 INVS = "INVARIANTS TypeOK Inv_MachineIsVerdict Inv_C17_Quorum Inv_C17_PaddingNeverCounts Inv_ThresholdSane"
 
 
+def never_taken(res):
+    """actions whose count is 0:0 in the FINAL coverage report (TLC also prints interim reports, in which an action
+    may legitimately still be at 0 while the initial states are being computed; vlib collects zeros from all reports)"""
+    import re
+    last = {}
+    for line in res.tail:
+        m = re.match(r"^<(\w+) line .*>: (\d+):(\d+)$", line)
+        if m:
+            last[m.group(1)] = (int(m.group(2)), int(m.group(3)))
+    return sorted(a for a in set(res.coverage_zero) if last.get(a) == (0, 0))
+
+
 def run(ctx):
     sd = ctx.stage()
     q = ctx.quick
@@ -79,8 +91,8 @@ def run(ctx):
         full = dict(defects="", full="1, 2, 3, 4, 5, 6, 7, 8, 9, 10", sampled="", mod=1, res=0, modemod=1,
                     alpha="11, 16, 17, 24", abytes="0, 1, 15, 127, 128, 254, 255", big="21, 63, 400", modes=ALLMODES)
         r1 = ctx.tlc(sd, "MC_HeaderSig", _cfg(sd, "r1.cfg", full, INVS), timeout=1800, coverage=True)
-        if r1.ok and r1.coverage_zero:
-            ctx.broken.append("vacuity: actions never taken in R1: %s" % sorted(set(r1.coverage_zero)))
+        if r1.ok and never_taken(r1):
+            ctx.broken.append("vacuity: actions never taken in R1: %s" % never_taken(r1))
         # export: honest aggregates on every bitmap of groups 1..9 and a quarter of those of 10 members, dishonest
         # aggregates on a residue class (volume: ~200 k cases, ~100 MB)
         gen = dict(full, full="1, 2, 3, 4, 5, 6, 7, 8, 9", sampled="10", mod=4, modemod=8, res=res)
